@@ -28,7 +28,7 @@ T = {
  'c01-4': ('C01', 'native method with defaulted parameters called with exactly one argument too many', 'native/Native::check_if_valid_call/post', 'caught after the native unit was added'),
  'c03-1': ('C03', 'un-fused super access (super.m(args) / super.m as a value) from a class two levels above the receiver', 'ops/Vm::op_get_super/post', 'first run was UNDECIDED (stub lacked ClassRef::super_class); caught after the stub API was completed'),
  'c03-2': ('C03', 'callable field invoked twice from one site with different callables', 'ops/Vm::op_invoke/post (coherent)', ''),
- 'c03-3': ('C03', 'subclass init re-assigns an inherited field and adds a new one (Class::add_field renumbers)', None, 'Class (hashbrown tables) is outside reach of both tools: NOT decided'),
+ 'c03-3': ('C03', 'subclass init re-assigns an inherited field and adds a new one (Class::add_field renumbers)', 'klass/Class::add_field/post', 'missed until the klass unit (class tables over abstract maps, the technique used for Module and the intern table) was built'),
  'c03-4': ('C03', 'chained read self.a.x inside a class without explicit parent (compiler apply_trailers)', None, 'Compiler is outside reach: NOT decided'),
  'c04-1': ('C04', 'an earlier catch clause declines and a later clause of the same try matches', 'ops/Vm::op_check_handler/post', 'missed on the first run only because registry.py did not list the ops unit under C04'),
  'c04-2': ('C04', 'user error hierarchy two or more levels deep', 'ops/Vm::op_check_handler/post', 'first run UNDECIDED (ClassRef ==, Option::map_or unsupported in the stub model); caught after stub completion'),
